@@ -47,7 +47,7 @@ def parse_contracts(path):
             d, rest = m.group(1), m.group(2).strip()
             if d == "fn":
                 cur = fns.setdefault(rest, []); sec = None
-            elif d in ("sig", "attr", "bodystart"):
+            elif d in ("sig", "attr", "bodystart", "bodyend"):
                 sec = {"kind": d, "text": []}; cur.append(sec)
             elif d in ("loop", "loop?"):
                 sec = {"kind": "loop", "n": int(rest), "text": [], "optional": d.endswith("?")}; cur.append(sec)
@@ -55,9 +55,9 @@ def parse_contracts(path):
                 sec = {"kind": "nested", "name": rest, "text": []}; cur.append(sec)
             elif d == "nestedbody":
                 sec = {"kind": "nestedbody", "name": rest, "text": []}; cur.append(sec)
-            elif d in ("before", "after", "closure"):
+            elif d in ("before", "after", "closure", "closure?", "before?", "after?"):
                 n, anchor = rest.split(None, 1)
-                sec = {"kind": d, "n": int(n), "anchor": anchor, "text": []}; cur.append(sec)
+                sec = {"kind": d.rstrip("?"), "n": int(n), "anchor": anchor, "text": [], "optional": d.endswith("?")}; cur.append(sec)
             elif d == "end":
                 sec = None
             else:
@@ -259,6 +259,8 @@ def extract(repo, spec, contracts, mode, mutate=None):
             ins.append((bo, order, text))
         elif s["kind"] == "bodystart":
             ins.append((bo + 1, order, text))
+        elif s["kind"] == "bodyend":
+            ins.append((len(body) - 1, order, text))
         elif s["kind"] in ("nested", "nestedbody"):
             k = next((i for i in range(bo + 1, len(body) - 1) if body[i].text == "fn" and body[i+1].text == s["name"]), None)
             if k is None: raise UnitError(f"lost anchor: {ex.id} has no nested fn {s['name']}")
@@ -277,6 +279,7 @@ def extract(repo, spec, contracts, mode, mutate=None):
             seq = [t.text for t in tokenize(s["anchor"])[0]]
             i = _find_seq(body, bo + 1, len(body), seq, s["n"])
             if i is None:
+                if s.get("optional"): continue      # the construct this contract belongs to does not exist (any more)
                 if TOLERANT["on"]: ex.lost.append(f"occurrence {s['n']} of `{s['anchor']}`"); continue
                 raise UnitError(f"lost anchor: {ex.id}: occurrence {s['n']} of `{s['anchor']}`")
             ins.append((i if s["kind"] in ("before", "closure") else i + len(seq), order, text))
